@@ -268,6 +268,7 @@ func cmdCheck(args []string) int {
 	var fnames []string
 	var anchorLost []string
 	var vacuous []string
+	var bounded, boundedHits []string
 	var solverS float64
 	byBackend := map[string]int{}
 	for _, key := range p.Order {
@@ -327,6 +328,34 @@ func cmdCheck(args []string) int {
 		fnames = append(fnames, key)
 		for _, e := range rep.Errors {
 			anchorLost = append(anchorLost, key+": "+e)
+		}
+		if len(rep.Errors) > 0 && c != nil && c.usableAtCalls() {
+			// bounded fall-back: clauses about the interior of the function lost their anchors (its loops were rewritten
+			// or a local was renamed). Its pre/postconditions and assertions are checked with every loop unrolled a few
+			// times instead. Every explored path is exact, so a refutation is a genuine counterexample (reported as a
+			// violation, labelled bounded); a pass proves nothing for longer runs and leaves the obligations undecided.
+			k := 3
+			if *tier == "thorough" {
+				k = 6
+			}
+			cfgB := cfg
+			cfgB.Unroll = k
+			repB := func() (r *FuncReport) {
+				defer func() {
+					if e := recover(); e != nil {
+						r = &FuncReport{Key: key, Errors: []string{fmt.Sprint(e)}}
+					}
+				}()
+				return verifyFunction(p, c, cfgB, filter)
+			}()
+			for _, r := range repB.Results {
+				if r.Status == "refuted" && r.Kind != "inv" && r.Kind != "decreases" {
+					r.Output = fmt.Sprintf("bounded fall-back (loops unrolled %d times, loop clauses of the contract could not be bound): the counterexample is exact for runs that need no more iterations\n", k) + r.Output
+					got[r.Name] = r
+					boundedHits = append(boundedHits, r.Name)
+				}
+			}
+			bounded = append(bounded, fmt.Sprintf("%s: loops unrolled %d times after anchor loss (%d obligations re-checked, refutations reported, passes left undecided)", key, k, len(repB.Results)))
 		}
 		if !rep.SmokeOK && len(rep.Errors) == 0 {
 			vacuous = append(vacuous, rep.SmokeMsg)
@@ -491,7 +520,8 @@ func cmdCheck(args []string) int {
 		"by_backend":               byBackend,
 		"solver_s":                 round2(solverS),
 		"functions_under_contract": fnames,
-		"bounded":                  []string{},
+		"bounded":                  append([]string{}, bounded...),
+		"bounded_refutations":      boundedHits,
 		"known_findings":           knownOut,
 		"undecided":                anchorLost,
 		"unproved_not_claimed":     notClaimed,
